@@ -36,6 +36,8 @@ def plan(ctx):
     from checks import gen_proc
     m = 25 if ctx["tier"] == "quick" else 1000
     batches.append(("rename-retry", [("rr%d" % i, gen_proc.rule_change_history(ctx["rng"])) for i in range(m)]))
+    # traces of every kind in every order (a trace that survives its pool's capacity reaches the collector)
+    batches.append(("traces", [("trh%d" % i, gen_proc.traces_history(ctx["rng"])) for i in range(8 if ctx["tier"] == "quick" else 300)]))
     return batches
 
 
